@@ -306,7 +306,7 @@ def run(ctx):
     quick = ctx.quick()
     rng = ctx.rng
     exact = corpus_cases()
-    n_exact = 1200 if quick else 12000
+    n_exact = 2000 if quick else 12000
     rejected = 0
     while len(exact) < n_exact:
         c = gen_case(rng, gen_int_transform, True)
@@ -314,7 +314,7 @@ def run(ctx):
             exact.append(c)
         else:
             rejected += 1
-    n_float = 2500 if quick else 100000
+    n_float = 5000 if quick else 100000
     floats = [gen_float_case(rng) for _ in range(n_float)]
     cases = exact + floats
     ctx.log('running %d integer-exact and %d float cases on the implementation' % (len(exact), len(floats)))
